@@ -458,7 +458,10 @@ func (c *Client) recv(keepaliveQuit chan<- struct{}, keepaliveDone <-chan struct
 		if !keepaliveStopped {
 			keepaliveStopped = true
 			close(keepaliveQuit)
-			close(sessionOver)
+			// The requests read so far are still answered (the server may have asked for a last
+			// acknowledgement before it ended the stream); what is not written when this function
+			// returns is dropped.
+			defer close(sessionOver)
 			// One time limit for both waits (a timer fires once: when it ended the first wait, there is
 			// no second one).
 			timeout := time.NewTimer(time.Duration(c.config.ConnectTimeout) * time.Second)
